@@ -291,6 +291,9 @@ func (st *stmt) Query([]driver.Value) (driver.Rows, error)  { return nil, errors
 // ValueText is the canonical text of a value as the driver sees it.
 func ValueText(v any) string {
 	if b, ok := v.([]byte); ok {
+		if b == nil {
+			return "[]uint8:<nil>" // NULL, not the empty blob
+		}
 		return fmt.Sprintf("[]uint8:%x", b)
 	}
 	return fmt.Sprintf("%T:%v", v, v)
